@@ -190,7 +190,9 @@ fn c03_oracle(run: &Run, maxdepth: u64, extra: u64) -> Option<String> {
         let n = run.n_leap;
         let lo = (1u64 << d) - 1;
         let hi = (1u64 << (d + 1)) - 1;
-        if n < lo || n > hi { return Some(format!("n_steps {n} outside [2^{d}-1, 2^{}-1]", d + 1)); }
+        // with extra doublings several partial doublings can be discarded after the U-turn, each adding leapfrogs:
+        // the upper bound is a statement about the default extra_doublings = 0 (the property's quantifier)
+        if n < lo || (extra == 0 && n > hi) { return Some(format!("n_steps {n} outside [2^{d}-1, 2^{}-1]", d + 1)); }
         if draw.unsigned_abs() > lo { return Some(format!("|index| {} > 2^{d}-1", draw)); }
         // the draw must be 0 or the destination of a successful leapfrog of this trajectory
         let visited = run.events.iter().any(|e| matches!(e, Ev::Leap { dst, outcome: 0, .. } if dst == draw));
@@ -249,7 +251,7 @@ pub fn main(tier: &str, seed: u64, outdir: &str) {
     let thorough = tier == "thorough";
 
     // ---- logaddexp: bit-exact against the translated definition
-    for case in 0..(if thorough { 20000 } else { 3000 }) {
+    for case in 0..(if thorough { 120000 } else { 3000 }) {
         let mut r = Sm::new(seed, "C01-lae", case);
         let (a, b) = match case % 6 {
             0 => (special_f64(&mut r), special_f64(&mut r)),
@@ -275,7 +277,7 @@ pub fn main(tier: &str, seed: u64, outdir: &str) {
     }
 
     // ---- random trajectories: correspondence records + C03 inequalities
-    let ncase = if thorough { 6000 } else { 1200 };
+    let ncase = if thorough { 40000 } else { 1200 };
     let mut distinct = std::collections::HashSet::new();
     for case in 0..ncase {
         let mut r = Sm::new(seed, "C01-draw", case);
@@ -326,7 +328,7 @@ pub fn main(tier: &str, seed: u64, outdir: &str) {
     }
 
     // ---- exact kernel of the implementation on small orbits: detailed balance + mirror symmetry
-    let nk = if thorough { 40 } else { 8 };
+    let nk = if thorough { 300 } else { 8 };
     let mut runs = 0u64;
     for case in 0..nk {
         let mut r = Sm::new(seed, "C01-kernel", case);
